@@ -250,7 +250,8 @@ structure WFacts (proj : Project) (rank : List Nat) : Prop where
     ∃ t', t = some t' ∧ rankOf rank t' < rankOf rank S.1
   onceMod : ∀ m, m < proj.length → (modNames proj (rankOf rank m + 1) m).Nodup
   onceCls : ∀ {S b}, siteBody proj S = some b → S.2 ≠ [] → (b.flatMap explicitNames).Nodup
-  nobases : ∀ {S b n bs body}, siteBody proj S = some b → Stmt.classDef n bs body ∈ b → bs = []
+  uniqueLast : ((entities proj).map (fun S => (sitePath proj S).getLast?)).Nodup
+  basesNe : ∀ {S b n bs body}, siteBody proj S = some b → Stmt.classDef n bs body ∈ b → ∀ p ∈ bs, p ≠ []
   nostar : ∀ {S b lvl M}, siteBody proj S = some b → Stmt.importStar lvl M ∈ b → S.2 = []
   noreexpStar : ∀ {m b lvl M}, siteBody proj (m, []) = some b → Stmt.importStar lvl M ∈ b → allNames (bodyOf proj m) = []
   noreexpFrom : ∀ {m b lvl M n a}, siteBody proj (m, []) = some b → Stmt.importFrom lvl M n a ∈ b →
@@ -262,11 +263,11 @@ structure WFacts (proj : Project) (rank : List Nat) : Prop where
 
 theorem WF.facts {proj : Project} {rank : List Nat} (h : WF proj rank = true) : WFacts proj rank := by
   simp only [WF, Bool.and_eq_true] at h
-  obtain ⟨⟨⟨⟨⟨⟨⟨⟨hmod, hpaths⟩, himp⟩, honce⟩, hnb⟩, hns⟩, hnr⟩, hroots⟩, hnames⟩ := h
+  obtain ⟨⟨⟨⟨⟨⟨⟨⟨⟨hmod, hpaths⟩, himp⟩, honce⟩, huniq⟩, hbne⟩, hns⟩, hnr⟩, hroots⟩, hnames⟩ := h
   simp only [modulesOk, Bool.and_eq_true, nodupB_iff, List.all_eq_true, List.mem_range] at hmod
   refine
     { modNodup := hmod.1, parentOk := ?_, pathsNodup := (nodupB_iff _).1 hpaths, targets := ?_, onceMod := ?_,
-      onceCls := ?_, nobases := ?_, nostar := ?_, noreexpStar := ?_, noreexpFrom := ?_, rootsStmt := ?_,
+      onceCls := ?_, uniqueLast := (nodupB_iff _).1 huniq, basesNe := ?_, nostar := ?_, noreexpStar := ?_, noreexpFrom := ?_, rootsStmt := ?_,
       rootsChild := ?_, namesOk := ?_ }
   · intro m hm
     have := hmod.2 m hm
@@ -290,9 +291,11 @@ theorem WF.facts {proj : Project} {rank : List Nat} (h : WF proj rank = true) : 
   · intro S b hb hne
     simp only [boundOnce, List.all_eq_true, List.mem_range, Bool.and_eq_true, nodupB_iff] at honce
     exact (classNodup_bodyAt (honce S.1 (siteBody_lt hb)).2 (siteBody_bodyAt hb) hne).1
-  · intro S b n bs body hb hm
-    have := allProj_spec hnb hb hm
-    simpa using this
+  · intro S b n bs body hb hm p hp
+    have := allProj_spec hbne hb hm
+    simp only [List.all_eq_true] at this
+    have h1 := this p hp
+    intro he; subst he; simp at h1
   · intro S b lvl M hb hm
     have := allProj_spec hns hb hm
     simpa using this
@@ -1112,6 +1115,12 @@ theorem site_unique {proj : Project} {rank : List Nat} (wf : WFacts proj rank) {
     (h : StaticSite proj S) (h' : StaticSite proj S') (hp : sitePath proj S = sitePath proj S') : S = S' :=
   nodup_map_inj wf.pathsNodup (static_mem_entities h) (static_mem_entities h') hp
 
+/-- names are globally unique: a module or definition is determined by its own (last) name -/
+theorem site_unique_last {proj : Project} {rank : List Nat} (wf : WFacts proj rank) {S S' : Site}
+    (h : StaticSite proj S) (h' : StaticSite proj S')
+    (hp : (sitePath proj S).getLast? = (sitePath proj S').getLast?) : S = S' :=
+  nodup_map_inj wf.uniqueLast (static_mem_entities h) (static_mem_entities h') hp
+
 /-! ## inversion of `Jpd` -/
 
 /-- what statement `st` of scope `S` says about the alias entry for `x` -/
@@ -1508,14 +1517,7 @@ structure PdInv (proj : Project) (s : St) : Prop where
     x ∈ childNames proj m ∨ ∃ st ∈ bodyOf proj m, st.defName = some x
   alls : ∀ m l, getAll s m = some l → ∀ x ∈ l, x ∈ allNames (bodyOf proj m)
   started : ∀ i S, path s.reg i = some (sitePath proj S) → StaticSite proj S → S.2 ≠ [] → getPs s S.1 ≠ .unprocessed
-  cinfo : ∀ c ci, dget s.cinfo c = some ci → ci.raw = [] ∧ ci.expanded = [] ∧ ci.objs = []
   complete : ∀ m md, proj[m]? = some md → getPs s m = .processed → CompleteStmts s m md.body
-
-theorem PdInv.initialBases_nil {proj : Project} {s : St} (hI : PdInv proj s) (c : Nat) : initialBases s c = [] := by
-  unfold initialBases
-  cases hd : dget s.cinfo c with
-  | none => rfl
-  | some ci => simp [(hI.cinfo c ci hd).2.2]
 
 /-! ## `setAlias` -/
 
@@ -1554,7 +1556,7 @@ theorem pdInv_setAlias {proj : Project} {rank : List Nat} (wf : WFacts proj rank
   have hext := setAlias_ext s ctx k v
   refine
     { reg := ?_, lens := hI.lens, mods := ?_, site := ?_, alias := ?_, cont := ?_, alls := hI.alls, started := ?_,
-      cinfo := ?_, complete := ?_ }
+      complete := ?_ }
   · exact inv_congr hI.reg (modify_aliases_agree _ _ _)
   · intro m hm
     obtain ⟨o, ho, hpm, hc⟩ := hI.mods m hm
@@ -1606,7 +1608,6 @@ theorem pdInv_setAlias {proj : Project} {rank : List Nat} (wf : WFacts proj rank
   · intro i S' hp' hS' hne
     rw [setAlias_path] at hp'
     exact hI.started i S' hp' hS' hne
-  · exact hI.cinfo
   · intro m md hm hps
     exact CompleteStmts.ext hext _ (hI.complete m md hm hps)
 
@@ -1716,7 +1717,7 @@ theorem pdInv_addObj {proj : Project} {rank : List Nat} (wf : WFacts proj rank) 
   refine ⟨?_, hext, by simp [objsAfterAdd_length], objsAfterAdd_get_new hlt, hnewpath, ?_, rfl, rfl, rfl⟩
   · refine
       { reg := by rw [he] at hinv; exact hinv, lens := hI.lens, mods := ?_, site := ?_, alias := ?_, cont := ?_,
-        alls := hI.alls, started := ?_, cinfo := hI.cinfo, complete := ?_ }
+        alls := hI.alls, started := ?_, complete := ?_ }
     · intro m hm
       obtain ⟨o, ho, hpm, hc⟩ := hI.mods m hm
       obtain ⟨o', ho', hc', _, _⟩ := hext.objs m o ho
@@ -2376,24 +2377,70 @@ theorem dget_map_key {α β : Type} (g : Nat → β) : ∀ (l : List (Nat × α)
     · rename_i hk; subst hk; injection h with h; exact h.symm
     · exact dget_map_key g l c v h
 
-/-- without base classes, the linearisation used during the AST pass is the class itself -/
-theorem mroOf_mid {proj : Project} {s : St} (hI : PdInv proj s) (c : Nat) : Names.mroOf (envOf s) c = [c] := by
-  unfold Names.mroOf envOf
-  simp only
-  cases hd : dget (midMro s) c with
-  | none => rfl
-  | some v =>
-    unfold midMro at hd
-    have := dget_map_key (fun c => Mro.allbasesFuel (initialBases s) (fun _ => false) (s.reg.objs.length + 1) c) _ _ _ hd
-    simp only [Option.getD_some, this, Mro.allbasesFuel, hI.initialBases_nil c, List.filter_nil, List.flatMap_nil]
-
-theorem classFind_mid {proj : Project} {s : St} (hI : PdInv proj s) {c : Nat} {o : Obj}
-    (ho : s.reg.objs[c]? = some o) (x : Name) : Names.classFind (envOf s) c x = dget o.contents x := by
-  unfold Names.classFind
-  rw [mroOf_mid hI]
-  have : getObj (envOf s).st c = some o := ho
-  simp only [List.findSome?, this]
-  cases dget o.contents x <;> rfl
+/-- names are globally unique: an entry called `n` of ANY object — what `Class.find` returns — is the entry
+of the scope whose body defines `n` -/
+theorem found_is_own {proj : Project} {rank : List Nat} (wf : WFacts proj rank) {s : St} (hI : PdInv proj s)
+    {mod ctx : Nat} {S : Site} {full : List Stmt} (hc : Ctx proj s mod ctx S full) {st : Stmt} {n : Name}
+    (hst : st ∈ full) (hd : st.defName = some n) {o : Obj} (ho : s.reg.objs[ctx]? = some o)
+    {e : Names.Env} (he : e.st = s.reg) {c0 o' : Nat} (hcf : Names.classFind e c0 n = some o') :
+    dget o.contents n = some o' := by
+  unfold Names.classFind at hcf
+  obtain ⟨b, _, hb⟩ := List.exists_of_findSome?_eq_some hcf
+  cases hgb : getObj e.st b with
+  | none => simp [hgb] at hb
+  | some bo =>
+    simp only [hgb] at hb
+    have hbo : s.reg.objs[b]? = some bo := by rw [← he]; exact hgb
+    have hbl := (List.getElem?_eq_some_iff.1 hbo).1
+    obtain ⟨kb, hkb⟩ := hI.reg.full b hbl
+    have hpb := hI.reg.reg.keys kb b hkb
+    have hpo' := path_child hI.reg hbo hb hpb
+    obtain ⟨oo', hoo'⟩ : ∃ oo', s.reg.objs[o']? = some oo' := ⟨s.reg.objs[o']'(path_lt hpo'), by simp [path_lt hpo']⟩
+    obtain ⟨So, hko, hpso⟩ := hI.site o' oo' hoo'
+    have hSt := hc.static hI
+    have hplus : StaticSite proj (S.1, S.2 ++ [n]) :=
+      ⟨hSt.1, Or.inr ⟨S.2, n, full, st, rfl, hc.body, hst, hd⟩⟩
+    have hso : So = (S.1, S.2 ++ [n]) := by
+      refine site_unique_last wf hko.static hplus ?_
+      rw [hpo'] at hpso; injection hpso with hpso
+      rw [← hpso]; simp [sitePath]
+    subst hso
+    have hpo2 : path s.reg o' = some (sitePath proj S ++ [n]) := by
+      rw [hpso]; simp [sitePath]
+    have hreg := dget_of_path hI.reg hpo2
+    have hne : sitePath proj S ≠ [] := by
+      have := (wf.parentOk S.1 hSt.1).1
+      simp [sitePath, this]
+    cases hdc : dget o.contents n with
+    | some c =>
+      have hpc := path_child hI.reg ho hdc hc.pathc
+      have := dget_of_path hI.reg hpc
+      rw [hreg] at this; injection this with this; rw [this]
+    | none =>
+      exfalso
+      -- registered below the scope but not listed in its contents: impossible
+      have hmem := mem_of_dget hreg
+      have hpj := hI.reg.reg.hasPath hmem
+      cases hpar : oo'.parent with
+      | none =>
+        have := hpj.root_inv hoo' hpar
+        have hl := congrArg List.length this
+        simp only [List.length_append, List.length_singleton, List.length_cons, List.length_nil] at hl
+        exact hne (List.eq_nil_of_length_eq_zero (by omega))
+      | some q =>
+        obtain ⟨pq, hq, hee⟩ := hpj.child_inv hoo' hpar
+        obtain ⟨e1, e2⟩ := List.append_inj' hee (by simp)
+        simp only [List.cons.injEq, and_true] at e2
+        subst e1
+        have hqreg := hI.reg.reg.up o' _ q ⟨_, hmem⟩ hoo' hpar
+        have hqc : q = ctx := hI.reg.reg.inj (mem_of_path hI.reg hc.pathc) hqreg hq
+        subst hqc
+        obtain ⟨_, l2⟩ := hI.reg.tree.listed o' _ hoo'
+        obtain ⟨po, hpo, hl⟩ := l2 q hpar
+        rw [ho] at hpo; injection hpo with hpo; subst hpo
+        rcases hl with hl | hl
+        · rw [← e2, hdc] at hl; cases hl
+        · rw [← e2, wf.namesOk hc.body hst hd] at hl; cases hl
 
 theorem visitFunc_ok {proj : Project} {rank : List Nat} (wf : WFacts proj rank) {s : St} (hI : PdInv proj s)
     {mod ctx : Nat} {S : Site} {full : List Stmt} (hc : Ctx proj s mod ctx S full) {n : Name}
@@ -2435,20 +2482,10 @@ theorem visitAssign_ok {proj : Project} {rank : List Nat} (wf : WFacts proj rank
     · simp only [hd, if_true] at hb ⊢; exact ⟨hI, Ext.refl s, hhas hd⟩
     · simp only [hd] at hb ⊢; exact hadd hb
   · simp only [hm] at hb ⊢
-    by_cases hma : maybeAttribute s ctx n = true
-    · simp only [hma, Bool.not_true, Bool.false_eq_true, if_false] at hb ⊢
-      by_cases hd : dhas o.contents n = true
-      · simp only [hd, if_true] at hb ⊢; exact ⟨hI, Ext.refl s, hhas hd⟩
-      · simp only [hd] at hb ⊢; exact hadd hb
-    · have hma' : maybeAttribute s ctx n = false := by simpa using hma
-      simp only [hma', Bool.not_false, if_true] at hb ⊢
-      refine ⟨hI, Ext.refl s, hhas ?_⟩
-      unfold maybeAttribute at hma'
-      rw [classFind_mid hI ho] at hma'
-      unfold dhas
-      cases hd : dget o.contents n with
-      | none => simp [hd] at hma'
-      | some c => simp
+    by_cases hd : dhas o.contents n = true
+    · simp only [hd, Bool.and_true, if_true, ite_self] at hb ⊢; exact ⟨hI, Ext.refl s, hhas hd⟩
+    · have hd' : dhas o.contents n = false := by simpa using hd
+      simp only [hd', Bool.and_false, Bool.false_eq_true, if_false] at hb ⊢; exact hadd hb
 
 theorem findClass_some : ∀ {full : List Stmt} {n : Name} {bs : List Path} {body : List Stmt},
     Stmt.classDef n bs body ∈ full → ∃ b', findClass full n = some b'
@@ -2476,30 +2513,6 @@ theorem findClass_of_mem {proj : Project} {rank : List Nat} (wf : WFacts proj ra
   injection this with _ _ h3
   rw [hf, h3]
 
-theorem cinfo_append {s : St} {c : Nat} {ci : ClsInfo} (hci : ci.raw = [] ∧ ci.expanded = [] ∧ ci.objs = [])
-    (hold : ∀ c ci, dget s.cinfo c = some ci → ci.raw = [] ∧ ci.expanded = [] ∧ ci.objs = []) :
-    ∀ c' ci', dget (s.cinfo ++ [(c, ci)]) c' = some ci' → ci'.raw = [] ∧ ci'.expanded = [] ∧ ci'.objs = [] := by
-  intro c' ci' h
-  have key : ∀ (l : List (Nat × ClsInfo)), dget (l ++ [(c, ci)]) c' =
-      match dget l c' with | some v => some v | none => (if c = c' then some ci else none) := by
-    intro l
-    induction l with
-    | nil => simp [dget]
-    | cons e l ih =>
-      obtain ⟨k, v⟩ := e
-      simp only [List.cons_append, dget]
-      split
-      · rfl
-      · exact ih
-  rw [key] at h
-  cases hd : dget s.cinfo c' with
-  | some v => simp only [hd, Option.some.injEq] at h; subst h; exact hold c' v hd
-  | none =>
-    simp only [hd] at h
-    by_cases hcc : c = c'
-    · simp only [hcc, if_true, Option.some.injEq] at h; subst h; exact hci
-    · simp [hcc] at h
-
 theorem enterClass_ok {proj : Project} {rank : List Nat} (wf : WFacts proj rank) {s : St} (hI : PdInv proj s)
     {mod ctx : Nat} {S : Site} {full : List Stmt} (hc : Ctx proj s mod ctx S full) {n : Name} {bs : List Path}
     {body : List Stmt} (hst : Stmt.classDef n bs body ∈ full) (hb : (enterClass ctx n bs s).bad = false) :
@@ -2507,23 +2520,23 @@ theorem enterClass_ok {proj : Project} {rank : List Nat} (wf : WFacts proj rank)
     Ctx proj (enterClass ctx n bs s) mod s.reg.objs.length (S.1, S.2 ++ [n]) body ∧
     (∃ po, (enterClass ctx n bs s).reg.objs[ctx]? = some po ∧ dget po.contents n = some s.reg.objs.length) := by
   have hps : getPs s S.1 ≠ .unprocessed := by rw [hc.hS1, hc.ps]; simp
-  have hbs : bs = [] := wf.nobases hc.body hst
-  subst hbs
   have hb1 := enterClass_bad hb
   obtain ⟨h1, h2, hlen, hnew, hpn, ⟨po, hpo, hd⟩, hps', hal', hci'⟩ :=
-    pdInv_addObj wf hI hb1 hc.pathc hc.body hst (st := .classDef n [] body) rfl hps (hc.static hI)
-  have he : enterClass ctx n [] s =
-      { addObj s .cls n ctx with cinfo := (addObj s .cls n ctx).cinfo ++ [(s.reg.objs.length, ⟨ctx, [], [], []⟩)] } := by
-    unfold enterClass
-    simp [markBad]
+    pdInv_addObj wf hI hb1 hc.pathc hc.body hst (st := .classDef n bs body) rfl hps (hc.static hI)
+  -- the class information recorded for the second pass does not matter here
+  obtain ⟨ci, he⟩ : ∃ ci : List (Nat × ClsInfo), enterClass ctx n bs s = { addObj s .cls n ctx with cinfo := ci } := by
+    unfold enterClass at hb ⊢
+    simp only at hb ⊢
+    obtain ⟨_, hmb⟩ := markBad_bad hb
+    exact ⟨_, hmb⟩
   rw [he]
   generalize addObj s .cls n ctx = s1 at *
-  have hext1 : Ext s1 { s1 with cinfo := s1.cinfo ++ [(s.reg.objs.length, ⟨ctx, [], [], []⟩)] } :=
+  have hext1 : Ext s1 { s1 with cinfo := ci } :=
     ⟨fun i o h => ⟨o, h, rfl, fun _ _ h => h, fun _ h => h⟩, fun _ _ h => h, fun t => ⟨id, id, fun h => by
       show getPs s1 t ≠ _; rw [h]; simp⟩⟩
-  have hI2 : PdInv proj { s1 with cinfo := s1.cinfo ++ [(s.reg.objs.length, ⟨ctx, [], [], []⟩)] } :=
+  have hI2 : PdInv proj { s1 with cinfo := ci } :=
     { reg := h1.reg, lens := h1.lens, mods := h1.mods, site := h1.site, alias := h1.alias, cont := h1.cont,
-      alls := h1.alls, started := h1.started, cinfo := cinfo_append ⟨rfl, rfl, rfl⟩ h1.cinfo,
+      alls := h1.alls, started := h1.started,
       complete := fun m md hm hp => CompleteStmts.ext hext1 _ (h1.complete m md hm hp) }
   refine ⟨hI2, h2.trans hext1, ?_, ⟨po, hpo, hd⟩⟩
   have hc1 := hc.ext h2
@@ -2661,7 +2674,6 @@ theorem processModule_ok {proj : Project} {rank : List Nat} (wf : WFacts proj ra
             by_cases htm : S.1 = m
             · simp [htm]
             · simp only [htm, if_false]; exact hI.started i S (hreg2 ▸ hp) hS hne'
-          cinfo := by rw [← hs2]; exact hI.cinfo
           complete := by
             intro t md ht hp
             rw [hps2] at hp
@@ -2693,7 +2705,6 @@ theorem processModule_ok {proj : Project} {rank : List Nat} (wf : WFacts proj ra
               by_cases htm : S.1 = m
               · simp [htm]
               · simp only [htm, if_false]; exact hI3.started i S hp hS hne'
-            cinfo := hI3.cinfo
             complete := by
               intro t md ht hp
               rw [hps4] at hp
@@ -2944,7 +2955,6 @@ theorem initSt_ok {proj : Project} {rank : List Nat} (wf : WFacts proj rank) :
         rw [hp] at hp'; injection hp' with hp'
         have := site_unique wf hS (⟨hi, Or.inl rfl⟩ : StaticSite proj (i, [])) (by simpa [sitePath] using hp')
         rw [this] at hne; exact hne rfl
-      cinfo := fun c ci h => by rw [hI.cinfo] at h; simp [dget] at h
       complete := by
         intro m md hm hp
         have hlt : m < proj.length := (List.getElem?_eq_some_iff.1 hm).1
@@ -3131,8 +3141,9 @@ def NsOk (proj : Project) (s : PyImp.St) (S : Site) (ns : Ns) : Prop :=
 
 structure PyInv (proj : Project) (s : PyImp.St) : Prop where
   mods : ∀ m, NsOk proj s (m, []) (nsOf s m)
-  heap : ∀ (h : Nat) (co : ClassObj), s.heap[h]? = some co → NsOk proj s (co.mod, co.cp) co.ns ∧ co.bases = []
+  heap : ∀ (h : Nat) (co : ClassObj), s.heap[h]? = some co → NsOk proj s (co.mod, co.cp) co.ns
   alls : ∀ m l, allOf s m = some l → ∀ x ∈ l, x ∈ allNames (bodyOf proj m)
+  nobases : noBases proj = true → ∀ (h : Nat) (co : ClassObj), s.heap[h]? = some co → co.bases = []
 
 /-- class objects persist -/
 def HeapExt (s s' : PyImp.St) : Prop := ∀ (h : Nat) (co : ClassObj), s.heap[h]? = some co → s'.heap[h]? = some co
@@ -3183,14 +3194,13 @@ theorem nsOf_bindGlobal {s : PyImp.St} {m t : Nat} {k : Name} {v : Val} :
 theorem pyInv_bindGlobal {proj : Project} {s : PyImp.St} (hI : PyInv proj s) {m : Nat} {k : Name} {v : Val}
     {sv : SVal} (hv : svalV s v = some sv) (hj : Jpy proj (m, []) [k] sv) : PyInv proj (bindGlobal s m k v) := by
   have he : HeapExt s (bindGlobal s m k v) := fun _ _ h => h
-  refine ⟨fun t => ?_, fun h co hh => ?_, hI.alls⟩
+  refine ⟨fun t => ?_, fun h co hh => ?_, hI.alls, hI.nobases⟩
   · rw [nsOf_bindGlobal]
     split
     · rename_i hc; rw [hc.1]
       exact ((hI.mods m).dset hv hj).ext he
     · exact (hI.mods t).ext he
-  · obtain ⟨h1, h2⟩ := hI.heap h co hh
-    exact ⟨h1.ext he, h2⟩
+  · exact (hI.heap h co hh).ext he
 
 /-- `STORE_NAME` of a justified value keeps the invariants (globals, or the class-body locals) -/
 theorem bind_ok {proj : Project} {s : PyImp.St} (hI : PyInv proj s) {m : Nat} {cp : Path} {fr : Option Ns}
@@ -3284,7 +3294,7 @@ def ExecOk (proj : Project) (S : Site) (x x' : PyImp.St × Option Ns) : Prop :=
   PyInv proj x'.1 ∧ HeapExt x.1 x'.1 ∧ FrOk proj x'.1 S x'.2 ∧ (x'.2 = none ↔ x.2 = none)
 
 theorem pyInv_err {proj : Project} {s : PyImp.St} (hI : PyInv proj s) (b : Bool) : PyInv proj { s with err := b } :=
-  ⟨hI.mods, hI.heap, hI.alls⟩
+  ⟨hI.mods, hI.heap, hI.alls, hI.nobases⟩
 
 theorem ExecOk.refl {proj : Project} {S : Site} {x : PyImp.St × Option Ns} (hI : PyInv proj x.1)
     (hf : FrOk proj x.1 S x.2) : ExecOk proj S x x := ⟨hI, HeapExt.refl _, hf, Iff.rfl⟩
@@ -3527,7 +3537,7 @@ theorem execAll_ok {proj : Project} {m : Nat} {cp : Path} {full : List Stmt} (hb
       have hheap : HeapExt x.1 { x.1 with alls := x.1.alls.set m (some l), err := false } := fun _ _ h => h
       have hfrok : FrOk proj { x.1 with alls := x.1.alls.set m (some l), err := false } (m, []) none :=
         ⟨fun l' hl' => (by cases hl'), fun _ => rfl⟩
-      refine ⟨⟨hI.mods, hI.heap, ?_⟩, hheap, hfrok, ?_⟩
+      refine ⟨⟨hI.mods, hI.heap, ?_, hI.nobases⟩, hheap, hfrok, ?_⟩
       · intro t l' hl' y hy
         have hl2 : allOf { x.1 with alls := x.1.alls.set m (some l) } t = some l' := hl'
         rw [allOf_set] at hl2
@@ -3544,38 +3554,48 @@ theorem ExecOk.trans {proj : Project} {S : Site} {a b c : PyImp.St × Option Ns}
 
 theorem finishClass_ok {proj : Project} {m : Nat} {cp : Path} {full : List Stmt} (hb : siteBody proj (m, cp) = some full)
     {name : Name} {bs : List Path} {body : List Stmt} (hst : Stmt.classDef name bs body ∈ full)
-    {fr : Option Ns} {s1 : PyImp.St} {fr1 : Option Ns} (hI : PyInv proj s1) (hfo : FrOk proj s1 (m, cp) fr)
-    (hfi : FrOk proj s1 (m, cp ++ [name]) fr1) :
-    PyInv proj (finishClass m cp name [] fr s1 fr1).1 ∧ HeapExt s1 (finishClass m cp name [] fr s1 fr1).1 ∧
-    FrOk proj (finishClass m cp name [] fr s1 fr1).1 (m, cp) (finishClass m cp name [] fr s1 fr1).2 ∧
-    ((finishClass m cp name [] fr s1 fr1).2 = none ↔ fr = none) := by
+    {fr : Option Ns} {s1 : PyImp.St} {fr1 : Option Ns} (hs : List Nat) (hhs : noBases proj = true → hs = [])
+    (hI : PyInv proj s1) (hfo : FrOk proj s1 (m, cp) fr) (hfi : FrOk proj s1 (m, cp ++ [name]) fr1) :
+    PyInv proj (finishClass m cp name hs fr s1 fr1).1 ∧ HeapExt s1 (finishClass m cp name hs fr s1 fr1).1 ∧
+    FrOk proj (finishClass m cp name hs fr s1 fr1).1 (m, cp) (finishClass m cp name hs fr s1 fr1).2 ∧
+    ((finishClass m cp name hs fr s1 fr1).2 = none ↔ fr = none) := by
   unfold finishClass
   by_cases he : s1.err = true
   · rw [if_pos he]; exact ⟨hI, HeapExt.refl _, hfo, Iff.rfl⟩
   · rw [if_neg he]
-    generalize hs2 : ({ s1 with heap := s1.heap ++ [⟨m, cp ++ [name], [], fr1.getD []⟩] } : PyImp.St) = s2
+    generalize hs2 : ({ s1 with heap := s1.heap ++ [⟨m, cp ++ [name], hs, fr1.getD []⟩] } : PyImp.St) = s2
     have hext : HeapExt s1 s2 := by
       intro h co hh
       rw [← hs2]; simp only
       rw [List.getElem?_append_left (List.getElem?_eq_some_iff.1 hh).1]; exact hh
-    have hnew : s2.heap[s1.heap.length]? = some ⟨m, cp ++ [name], [], fr1.getD []⟩ := by
+    have hnew : s2.heap[s1.heap.length]? = some ⟨m, cp ++ [name], hs, fr1.getD []⟩ := by
       rw [← hs2]; simp
     have hns2 : ∀ t, nsOf s2 t = nsOf s1 t := fun t => by rw [← hs2]; rfl
     have hI2 : PyInv proj s2 := by
-      refine ⟨fun t => by rw [hns2]; exact (hI.mods t).ext hext, ?_, fun t l hl => hI.alls t l (by rw [← hs2] at hl; exact hl)⟩
+      refine ⟨fun t => by rw [hns2]; exact (hI.mods t).ext hext, ?_, fun t l hl => hI.alls t l (by rw [← hs2] at hl; exact hl), ?_⟩
+      rotate_left
+      · intro hn h co hh
+        by_cases hlt : h < s1.heap.length
+        · have hold : s1.heap[h]? = some co := by
+            rw [← hs2] at hh; simp only at hh
+            rw [List.getElem?_append_left hlt] at hh; exact hh
+          exact hI.nobases hn h co hold
+        · have hlen : h < s2.heap.length := (List.getElem?_eq_some_iff.1 hh).1
+          have : h = s1.heap.length := by rw [← hs2] at hlen; simp at hlen; omega
+          subst this
+          rw [hnew] at hh; injection hh with hh; subst hh
+          exact hhs hn
       intro h co hh
       by_cases hlt : h < s1.heap.length
       · have hold : s1.heap[h]? = some co := by
           rw [← hs2] at hh; simp only at hh
           rw [List.getElem?_append_left hlt] at hh; exact hh
-        obtain ⟨h1, h2⟩ := hI.heap h co hold
-        exact ⟨h1.ext hext, h2⟩
+        exact (hI.heap h co hold).ext hext
       · have hlen : h < s2.heap.length := (List.getElem?_eq_some_iff.1 hh).1
         have : h = s1.heap.length := by rw [← hs2] at hlen; simp at hlen; omega
         subst this
         rw [hnew] at hh; injection hh with hh; subst hh
         simp only
-        refine ⟨?_, trivial⟩
         cases hfr1 : fr1 with
         | none => exact NsOk.nil
         | some l => exact (hfi.1 l hfr1).ext hext
@@ -3602,18 +3622,29 @@ theorem execStmt_ok {proj : Project} {rank : List Nat} (wf : WFacts proj rank) {
     by_cases he : x.1.err = true
     · simp only [he, if_true]; exact ExecOk.refl hI hf
     · simp only [he]
-      have hbs : bs = [] := wf.nobases hb hst
-      subst hbs
-      have hev : evalBases x.1 m x.2 [] = some [] := by simp [evalBases]
-      simp only [hev]
-      have hbi : siteBody proj (m, cp ++ [name]) = some body := siteBody_snoc hb (findClass_of_mem wf hb hst)
-      have hfi0 : FrOk proj x.1 (m, cp ++ [name]) (some []) :=
-        ⟨fun l hl => by injection hl with hl; subst hl; exact NsOk.nil, fun h => by cases h⟩
-      have hin := execStmts_ok wf himp body (cp ++ [name]) body (x.1, some []) hbi (fun _ h => h) hI hfi0
-      obtain ⟨hI1, hx1, hfi1, _⟩ := hin
-      have := finishClass_ok hb hst (fr := x.2) hI1 (hf.ext hx1) hfi1
-      obtain ⟨h1, h2, h3, h4⟩ := this
-      exact ⟨h1, HeapExt.trans hx1 h2, h3, h4⟩
+      cases hev : evalBases x.1 m x.2 bs with
+      | none =>
+        simp only
+        have : fail x = fail (x.1, x.2) := rfl
+        rw [this]; exact ExecOk.fail hI (HeapExt.refl _) hf
+      | some hs =>
+        simp only
+        have hbi : siteBody proj (m, cp ++ [name]) = some body := siteBody_snoc hb (findClass_of_mem wf hb hst)
+        have hfi0 : FrOk proj x.1 (m, cp ++ [name]) (some []) :=
+          ⟨fun l hl => by injection hl with hl; subst hl; exact NsOk.nil, fun h => by cases h⟩
+        have hin := execStmts_ok wf himp body (cp ++ [name]) body (x.1, some []) hbi (fun _ h => h) hI hfi0
+        obtain ⟨hI1, hx1, hfi1, _⟩ := hin
+        have hhs : noBases proj = true → hs = [] := by
+          intro hn
+          have hbs : bs = [] := by
+            have := allProj_spec hn hb hst
+            simpa using this
+          subst hbs
+          simp [evalBases] at hev
+          exact hev
+        have := finishClass_ok hb hst (fr := x.2) hs hhs hI1 (hf.ext hx1) hfi1
+        obtain ⟨h1, h2, h3, h4⟩ := this
+        exact ⟨h1, HeapExt.trans hx1 h2, h3, h4⟩
   | .funcDef n, cp, full, x, hb, hst, hI, hf => by simp only [execStmt]; exact execDef_ok hb hst rfl hI hf
   | .assign n v, cp, full, x, hb, hst, hI, hf => by simp only [execStmt]; exact execDef_ok hb hst rfl hI hf
   | .allAssign l, cp, full, x, hb, hst, hI, hf => by simp only [execStmt]; exact execAll_ok hb hst hI hf
@@ -3633,7 +3664,7 @@ end
 /-! ## importing a module; the whole run -/
 
 theorem pyInv_ms {proj : Project} {s : PyImp.St} (hI : PyInv proj s) (ms' : List MState) : PyInv proj { s with ms := ms' } :=
-  ⟨hI.mods, hI.heap, hI.alls⟩
+  ⟨hI.mods, hI.heap, hI.alls, hI.nobases⟩
 
 theorem ensure_ok {proj : Project} {rank : List Nat} (wf : WFacts proj rank) : ∀ f, ImpOk proj (ensure proj f)
   | 0 => fun s p hI => by simp only [ensure]; exact ⟨pyInv_err hI true, fun _ _ h => h⟩
@@ -3707,7 +3738,7 @@ theorem run_py_ok {proj : Project} {rank : List Nat} (wf : WFacts proj rank) (or
     PyInv proj (PyImp.run proj order) := by
   unfold PyImp.run
   have h0 : PyInv proj (PyImp.initSt proj) := by
-    refine ⟨fun m x v h => ?_, fun h co hh => ?_, fun m l h => ?_⟩
+    refine ⟨fun m x v h => ?_, fun h co hh => ?_, fun m l h => ?_, fun _ h co hh => by simp [PyImp.initSt] at hh⟩
     · unfold nsOf PyImp.initSt at h
       simp only [List.getD_eq_getElem?_getD, List.getElem?_replicate] at h
       split at h <;> simp [dget] at h
@@ -3722,15 +3753,25 @@ theorem run_py_ok {proj : Project} {rank : List Nat} (wf : WFacts proj rank) (or
 
 /-! ## what `pyDenotes` answers is a `Jpy` derivation -/
 
-theorem mroOf_nobases {proj : Project} {s : PyImp.St} (hI : PyInv proj s) {h : Nat} {co : ClassObj}
-    (hh : s.heap[h]? = some co) : PyImp.mroOf s h = some [h] := by
-  unfold PyImp.mroOf
-  have hb : basesOf s h = [] := by simp [basesOf, hh, (hI.heap h co hh).2]
-  simp [PyMro.mroFuel, hb, Mro.mapOpt, PyMro.hasDup]
-  decide
+theorem pymro_head (bases : Nat → List Nat) : ∀ (f c : Nat) (l : List Nat), PyMro.mroFuel bases f c = some l →
+    ∃ t, l = c :: t
+  | 0, _, _, h => by simp [PyMro.mroFuel] at h
+  | f+1, c, l, h => by
+    simp only [PyMro.mroFuel] at h
+    cases hm : Mro.mapOpt (PyMro.mroFuel bases f) (bases c) with
+    | none => simp [hm] at h
+    | some lins =>
+      simp only [hm] at h
+      split at h
+      · injection h with h; exact ⟨_, h.symm⟩
+      · split at h
+        · cases h
+        · cases hp : PyMro.pmerge (lins ++ [bases c]) with
+          | none => simp [hp] at h
+          | some t => simp only [hp, Option.map_some, Option.some.injEq] at h; exact ⟨t, h.symm⟩
 
 theorem getAttr_j {proj : Project} {s : PyImp.St} (hI : PyInv proj s) {v0 v1 : Val} {sv0 : SVal} {y : Name}
-    (hs : svalV s v0 = some sv0) (h : getAttr s v0 y = some v1) :
+    (hs : svalV s v0 = some sv0) (h : getAttr s v0 y = some v1) (hown : ownAttr s v0 y = true) :
     ∃ sv1, svalV s v1 = some sv1 ∧ Jpy proj (scopeOf sv0) [y] sv1 := by
   cases v0 with
   | mod t =>
@@ -3743,34 +3784,45 @@ theorem getAttr_j {proj : Project} {s : PyImp.St} (hI : PyInv proj s) {v0 v1 : V
     | none => simp [hc] at hs
     | some co =>
       simp only [hc, Option.map_some, Option.some.injEq] at hs; subst hs
-      simp only [getAttr, mroOf_nobases hI hc, List.findSome?, hc] at h
-      have hd : dget co.ns y = some v1 := by
-        cases hx : dget co.ns y with
-        | none => simp [hx] at h
-        | some w => simp only [hx, Option.some.injEq] at h; rw [h]
-      exact (hI.heap hh co hc).1 y v1 hd
+      simp only [ownAttr, hc, dhas] at hown
+      cases hx : dget co.ns y with
+      | none => simp [hx] at hown
+      | some w =>
+        simp only [getAttr] at h
+        cases hm : PyImp.mroOf s hh with
+        | none => simp [hm] at h
+        | some l =>
+          simp only [hm] at h
+          obtain ⟨t, ht⟩ := pymro_head _ _ _ _ hm
+          subst ht
+          simp only [List.findSome?, hc, hx, Option.some.injEq] at h
+          subst h
+          exact hI.heap hh co hc y w hx
 
 theorem getAttrs_j {proj : Project} {s : PyImp.St} (hI : PyInv proj s) :
     ∀ (ys : List Name) (v0 v : Val) (sv0 : SVal), svalV s v0 = some sv0 → getAttrs s v0 ys = some v → ys ≠ [] →
-      ∃ sv, svalV s v = some sv ∧ Jpy proj (scopeOf sv0) ys sv
-  | [], _, _, _, _, _, hne => absurd rfl hne
-  | [y], v0, v, sv0, hs, h, _ => by
+      ownAttrs s v0 ys = true → ∃ sv, svalV s v = some sv ∧ Jpy proj (scopeOf sv0) ys sv
+  | [], _, _, _, _, _, hne, _ => absurd rfl hne
+  | [y], v0, v, sv0, hs, h, _, hown => by
     simp only [getAttrs] at h
+    simp only [ownAttrs, Bool.and_eq_true] at hown
     cases ha : getAttr s v0 y with
     | none => simp [ha] at h
-    | some w => simp only [ha, getAttrs, Option.some.injEq] at h; subst h; exact getAttr_j hI hs ha
-  | y :: y2 :: ys, v0, v, sv0, hs, h, _ => by
+    | some w => simp only [ha, getAttrs, Option.some.injEq] at h; subst h; exact getAttr_j hI hs ha hown.1
+  | y :: y2 :: ys, v0, v, sv0, hs, h, _, hown => by
     simp only [getAttrs] at h
+    simp only [ownAttrs, Bool.and_eq_true] at hown
     cases ha : getAttr s v0 y with
     | none => simp [ha] at h
     | some w =>
-      simp only [ha] at h
-      obtain ⟨sw, hsw, hjw⟩ := getAttr_j hI hs ha
-      obtain ⟨sv, hsv, hj⟩ := getAttrs_j hI (y2 :: ys) w v sw hsw h (by simp)
+      simp only [ha] at h hown
+      obtain ⟨sw, hsw, hjw⟩ := getAttr_j hI hs ha hown.1
+      obtain ⟨sv, hsv, hj⟩ := getAttrs_j hI (y2 :: ys) w v sw hsw h (by simp) hown.2
       exact ⟨sv, hsv, Jpy.cons hjw hj⟩
 
 theorem denoteIn_j {proj : Project} {s : PyImp.St} (hI : PyInv proj s) {S : Site} {ns : Ns} (hns : NsOk proj s S ns)
-    {name : Path} {v : Val} (h : denoteIn s ns name = some v) : ∃ sv, svalV s v = some sv ∧ Jpy proj S name sv := by
+    {name : Path} {v : Val} (h : denoteIn s ns name = some v) (hown : ownIn s ns name = true) :
+    ∃ sv, svalV s v = some sv ∧ Jpy proj S name sv := by
   cases name with
   | nil => simp [denoteIn] at h
   | cons x rest =>
@@ -3783,7 +3835,8 @@ theorem denoteIn_j {proj : Project} {s : PyImp.St} (hI : PyInv proj s) {S : Site
       cases rest with
       | nil => simp only [getAttrs, Option.some.injEq] at h; subst h; exact ⟨sv0, hs0, hj0⟩
       | cons y ys =>
-        obtain ⟨sv, hsv, hj⟩ := getAttrs_j hI (y :: ys) v0 v sv0 hs0 h (by simp)
+        simp only [ownIn, hd] at hown
+        obtain ⟨sv, hsv, hj⟩ := getAttrs_j hI (y :: ys) v0 v sv0 hs0 h (by simp) hown
         exact ⟨sv, hsv, Jpy.cons hj0 hj⟩
 
 theorem walkNs_j {proj : Project} {s : PyImp.St} (hI : PyInv proj s) :
@@ -3809,7 +3862,7 @@ theorem walkNs_j {proj : Project} {s : PyImp.St} (hI : PyInv proj s) :
           simp only [hc] at h
           obtain ⟨sv0, hs0, hj0⟩ := hns c _ hd
           simp only [svalV, hc, Option.map_some, Option.some.injEq] at hs0; subst hs0
-          obtain ⟨S', hns', hcase⟩ := walkNs_j hI cs co.ns ns' (co.mod, co.cp) (hI.heap hh co hc).1 h
+          obtain ⟨S', hns', hcase⟩ := walkNs_j hI cs co.ns ns' (co.mod, co.cp) (hI.heap hh co hc) h
           refine ⟨S', hns', Or.inr ⟨by simp, ?_⟩⟩
           rcases hcase with ⟨hcs, hS⟩ | ⟨hcs, hj⟩
           · subst hcs; subst hS; exact hj0
@@ -3832,27 +3885,106 @@ theorem identOf_sval {proj : Project} {s : PyImp.St} {v : Val} {sv : SVal} (h : 
 static site `S` (the module itself, or the class `Jpy` gives for `cp`), and the identity answered
 for `name` is that of a value `Jpy` gives for `name` in `S` -/
 theorem pyDenotes_j {proj : Project} {rank : List Nat} (wf : WFacts proj rank) {order : List Nat} {m : Nat}
-    {cp : List Name} {name : Path} {id : Ident} (h : pyDenotes proj order m cp name = some id) :
+    {cp : List Name} {name : Path} {id : Ident} (h : pyDenotes proj order m cp name = some id)
+    (hown : pyOwn proj order m cp name = true) :
     ∃ S sv, ((cp = [] ∧ S = (m, [])) ∨ (cp ≠ [] ∧ Jpy proj (m, []) cp (.dfn S.1 S.2))) ∧
       Jpy proj S name sv ∧ identSV proj sv = id := by
   have hI := run_py_ok wf order
   unfold pyDenotes denoteAt at h
-  generalize PyImp.run proj order = s at hI h
+  unfold pyOwn at hown
+  simp only at hown
+  generalize PyImp.run proj order = s at hI h hown
   split at h
   · cases h
   · cases hw : walkNs s (nsOf s m) cp with
     | none => simp [hw] at h
     | some ns =>
-      simp only [hw] at h
+      simp only [hw] at h hown
       cases hd : denoteIn s ns name with
       | none => simp [hd] at h
       | some v =>
         simp only [hd] at h
         obtain ⟨S, hns, hcase⟩ := walkNs_j hI cp _ ns (m, []) (hI.mods m) hw
-        obtain ⟨sv, hsv, hj⟩ := denoteIn_j hI hns hd
+        obtain ⟨sv, hsv, hj⟩ := denoteIn_j hI hns hd hown
         rw [identOf_sval hsv] at h
         injection h with h
         exact ⟨S, sv, hcase, hj, h⟩
+
+end Imports
+
+namespace Imports
+open Registry
+open PyImp
+
+/-! ## without base classes every attribute of a class is its own -/
+
+theorem getAttr_own_nb {proj : Project} {s : PyImp.St} (hI : PyInv proj s) (hn : noBases proj = true) {v w : Val}
+    {y : Name} (h : getAttr s v y = some w) : ownAttr s v y = true := by
+  cases v with
+  | mod t => rfl
+  | obj m cp => rfl
+  | cls hh =>
+    simp only [ownAttr]
+    cases hc : s.heap[hh]? with
+    | none =>
+      exfalso
+      have hb : basesOf s hh = [] := by simp [basesOf, hc]
+      have hm : PyImp.mroOf s hh = some [hh] := by
+        unfold PyImp.mroOf
+        simp [PyMro.mroFuel, hb, Mro.mapOpt, PyMro.hasDup]
+        decide
+      simp [getAttr, hm, List.findSome?, hc] at h
+    | some co =>
+      simp only
+      have hb : basesOf s hh = [] := by simp [basesOf, hc, hI.nobases hn hh co hc]
+      have hm : PyImp.mroOf s hh = some [hh] := by
+        unfold PyImp.mroOf
+        simp [PyMro.mroFuel, hb, Mro.mapOpt, PyMro.hasDup]
+        decide
+      simp only [getAttr, hm, List.findSome?, hc] at h
+      unfold dhas
+      cases hx : dget co.ns y with
+      | none => simp [hx] at h
+      | some w' => rfl
+
+theorem ownAttrs_nb {proj : Project} {s : PyImp.St} (hI : PyInv proj s) (hn : noBases proj = true) :
+    ∀ (ys : List Name) (v w : Val), getAttrs s v ys = some w → ownAttrs s v ys = true
+  | [], _, _, _ => rfl
+  | y :: ys, v, w, h => by
+    simp only [getAttrs] at h
+    cases ha : getAttr s v y with
+    | none => simp [ha] at h
+    | some u =>
+      simp only [ha] at h
+      simp only [ownAttrs, ha, Bool.and_eq_true]
+      exact ⟨getAttr_own_nb hI hn ha, ownAttrs_nb hI hn ys u w h⟩
+
+/-- in a project without base classes, whatever Python binds is bound without inheritance -/
+theorem pyOwn_of_noBases {proj : Project} {rank : List Nat} (wf : WFacts proj rank) (hn : noBases proj = true)
+    {order : List Nat} {m : Nat} {cp : List Name} {name : Path} {id : Ident}
+    (h : pyDenotes proj order m cp name = some id) : pyOwn proj order m cp name = true := by
+  have hI := run_py_ok wf order
+  unfold pyDenotes denoteAt at h
+  unfold pyOwn
+  simp only
+  generalize PyImp.run proj order = s at hI h
+  split at h
+  · cases h
+  · cases hw : walkNs s (nsOf s m) cp with
+    | none => rfl
+    | some ns =>
+      simp only [hw] at h ⊢
+      cases name with
+      | nil => rfl
+      | cons x rest =>
+        simp only [ownIn]
+        cases hd : dget ns x with
+        | none => rfl
+        | some v =>
+          simp only
+          cases hg : getAttrs s v rest with
+          | none => simp [denoteIn, hd, hg] at h
+          | some w => exact ownAttrs_nb hI hn rest v w hg
 
 end Imports
 
@@ -3884,26 +4016,42 @@ theorem expandLoop_notfound {e : Names.Env} {i : Nat} {y : Name} {rest : List Na
   rw [Names.expandLoop]
   simp [hc, ho, hcls, hp]
 
-theorem finalBases_nil {proj : Project} {s : St} (hI : PdInv proj s) (c : Nat) : finalBases s c = [] := by
-  unfold finalBases
-  cases hd : dget s.cinfo c with
-  | none => rfl
-  | some ci =>
-    obtain ⟨h1, h2, h3⟩ := hI.cinfo c ci hd
-    simp [h1]
+/-- inside a class, an alias that maps a name to itself comes from `import y…`: `y` is a root module -/
+theorem jpd_self_root_aux {proj : Project} {rank : List Nat} (wf : WFacts proj rank) :
+    ∀ {S : Site} {x : Name} {tgt : Path}, Jpd proj S x tgt → tgt = [x] → S.2 ≠ [] →
+      ∃ root, modIdx proj [x] = some root := by
+  intro S x tgt h
+  induction h with
+  | @importAs S b tgt x hb hst =>
+    intro htg _
+    obtain ⟨t', ht', _⟩ := wf.targets hb hst (modIdx proj tgt) (by simp [stmtTargets])
+    exact ⟨t', by rw [← htg]; exact ht'⟩
+  | @importTop S b h r hb hst =>
+    intro _ _
+    obtain ⟨t', ht', _⟩ := wf.targets hb hst (modIdx proj (h :: r)) (by simp [stmtTargets])
+    obtain ⟨hlt, hp⟩ := modIdx_spec ht'
+    obtain ⟨r0, rest, root, hpp, hroot, _⟩ := canon_mod wf t' hlt
+    rw [hp] at hpp; injection hpp with e1 _; subst e1
+    exact ⟨root, hroot⟩
+  | @«from» S b lvl M n a T hb hst hT =>
+    intro htg _
+    exfalso
+    obtain ⟨t', ht', _⟩ := wf.targets hb hst (target proj S.1 lvl M) (by simp [stmtTargets])
+    obtain ⟨T', hT', hm⟩ := target_spec ht'
+    have := abs_eq hT hT'; subst this
+    obtain ⟨hlt, hp⟩ := modIdx_spec hm
+    have hne := (wf.parentOk t' hlt).1
+    rw [hp] at hne
+    have hl := congrArg List.length htg
+    simp only [List.length_append, List.length_singleton, List.length_cons, List.length_nil] at hl
+    exact hne (List.eq_nil_of_length_eq_zero (by omega))
+  | starChild hb hst _ _ _ _ => intro _ hS; exact absurd (wf.nostar hb hst) hS
+  | starAlias hb hst _ _ _ _ _ => intro _ hS; exact absurd (wf.nostar hb hst) hS
+  | starNone hb hst _ _ _ => intro _ hS; exact absurd (wf.nostar hb hst) hS
 
-/-- without base classes every class is its own linearisation -/
-theorem mroOf_final {proj : Project} {s : St} (hI : PdInv proj s) (c : Nat) : Names.mroOf (finalEnv s) c = [c] := by
-  unfold Names.mroOf finalEnv
-  simp only
-  cases hd : dget (finalMro s) c with
-  | none => rfl
-  | some v =>
-    unfold finalMro at hd
-    have := dget_map_key (fun c => match Mro.mroFuel (finalBases s) (s.reg.objs.length + 1) c with
-      | some l => l
-      | none => Mro.allbasesFuel (finalBases s) (fun _ => false) (s.reg.objs.length + 1) c) _ _ _ hd
-    simp only [Option.getD_some, this, Mro.mroFuel, finalBases_nil hI c, List.isEmpty_nil, if_true]
+theorem jpd_self_root {proj : Project} {rank : List Nat} (wf : WFacts proj rank) {S : Site} {y : Name}
+    (h : Jpd proj S y [y]) (hS : S.2 ≠ []) : ∃ root, modIdx proj [y] = some root :=
+  jpd_self_root_aux wf h rfl hS
 
 /-- the object pydoctor creates for a `def` / assignment is not a scope Python can look into -/
 theorem no_jpy_nonclass {proj : Project} {rank : List Nat} (wf : WFacts proj rank) {S : Site} {c : Cls}
@@ -3952,7 +4100,7 @@ theorem ObjKind.ident {proj : Project} {s : St} {j : Nat} {o : Obj} {S : Site} (
 returns for `ys` looked up in object `i` (scope `S`) denotes — as an absolute dotted name — whatever
 Python gives for `ys` in `S`. -/
 theorem expand_sound {proj : Project} {rank : List Nat} (wf : WFacts proj rank) {s : St} (hI : PdInv proj s)
-    (hn : NoProcessing s) (e : Names.Env) (he : e.st = s.reg) (hmro : ∀ c, Names.mroOf e c = [c]) :
+    (hn : NoProcessing s) (e : Names.Env) (he : e.st = s.reg) :
     ∀ (ys : List Name) (i : Nat) (first : Bool) (S : Site) (o : Obj) (v : SVal) (p : Path),
       s.reg.objs[i]? = some o → path s.reg i = some (sitePath proj S) → ObjKind proj S o.cls →
       Jpy proj S ys v → Names.expandLoop e i first ys = some p → AbsDenW proj p v
@@ -4003,7 +4151,7 @@ theorem expand_sound {proj : Project} {rank : List Nat} (wf : WFacts proj rank) 
         · subst hr
           simp only at hx
           rw [← hwv, scopeOf_svalOf] at hjr
-          exact expand_sound wf hI hn e he hmro (y2 :: r) nxt false Sn on v p hon (by rw [hpn, hpn']) hkn hjr hx
+          exact expand_sound wf hI hn e he (y2 :: r) nxt false Sn on v p hon (by rw [hpn, hpn']) hkn hjr hx
     by_cases hcan : canContainImports o.cls = true
     · cases hdc : dget o.contents y with
       | some c =>
@@ -4040,9 +4188,42 @@ theorem expand_sound {proj : Project} {rank : List Nat} (wf : WFacts proj rank) 
             · -- a class: the name is looked up among the inherited members: none without base classes
               rw [Names.expandLoop] at hx
               have hcf : Names.classFind e i y = none := by
-                unfold Names.classFind
-                rw [hmro]
-                simp [List.findSome?, hgo, hdc]
+                cases hcf : Names.classFind e i y with
+                | none => rfl
+                | some o' =>
+                  exfalso
+                  -- an entry called `y` of some class of the MRO, yet `y` is the name of a root module
+                  have hS2 : S.2 ≠ [] := by
+                    intro h0
+                    have := hk.isMod.2 h0
+                    rw [hcl] at this; simp [isModuleCls] at this
+                  obtain ⟨root, hroot⟩ := jpd_self_root wf (ht ▸ hjd) hS2
+                  obtain ⟨hrl, hrp⟩ := modIdx_spec hroot
+                  unfold Names.classFind at hcf
+                  obtain ⟨b, _, hb⟩ := List.exists_of_findSome?_eq_some hcf
+                  cases hgb : getObj e.st b with
+                  | none => simp [hgb] at hb
+                  | some bo =>
+                    simp only [hgb] at hb
+                    have hbo : s.reg.objs[b]? = some bo := by rw [← he]; exact hgb
+                    have hbl := (List.getElem?_eq_some_iff.1 hbo).1
+                    obtain ⟨kb, hkb⟩ := hI.reg.full b hbl
+                    have hpb := hI.reg.reg.keys kb b hkb
+                    have hpo' := path_child hI.reg hbo hb hpb
+                    obtain ⟨oo', hoo'⟩ : ∃ oo', s.reg.objs[o']? = some oo' :=
+                      ⟨s.reg.objs[o']'(path_lt hpo'), by simp [path_lt hpo']⟩
+                    obtain ⟨So, hko, hpso⟩ := hI.site o' oo' hoo'
+                    have hso : So = (root, []) := by
+                      refine site_unique_last wf hko.static ⟨hrl, Or.inl rfl⟩ ?_
+                      rw [hpo'] at hpso; injection hpso with hpso
+                      rw [← hpso]; simp [sitePath, hrp]
+                    subst hso
+                    rw [hpo'] at hpso; injection hpso with hpso
+                    have hl := congrArg List.length hpso
+                    simp only [sitePath, hrp, List.length_append, List.length_singleton, List.length_cons,
+                      List.length_nil] at hl
+                    have : kb = [] := List.eq_nil_of_length_eq_zero (by omega)
+                    exact (path_sound hpb).ne_nil this
               simp [hcn, hgo, hcl, hcf, hpe] at hx
               subst hx
               simpa using hfullW
@@ -4107,13 +4288,12 @@ theorem resolve_sound_state {proj : Project} {rank : List Nat} (wf : WFacts proj
     (hp : path s.reg i = some (sitePath proj S)) (hk : ObjKind proj S o.cls) {name : Path} {v : SVal} {j : Nat}
     (hj : Jpy proj S name v) (hr : Names.resolveName (finalEnv s) i name = some j) :
     identOf s.reg j = some (identSV proj v) := by
-  have hmro := mroOf_final hI
   unfold Names.resolveName at hr
   cases hx : Names.expandName (finalEnv s) i name with
   | none => simp [hx] at hr
   | some p =>
     simp only [hx] at hr
-    have hden := expand_sound wf hI hn (finalEnv s) rfl hmro name i true S o v p ho hp hk hj hx
+    have hden := expand_sound wf hI hn (finalEnv s) rfl name i true S o v p ho hp hk hj hx
     cases hof : Names.objFor (finalEnv s) p with
     | some j' =>
       simp only [hof, Option.some.injEq] at hr; subst hr
@@ -4173,7 +4353,7 @@ theorem resolve_sound_state {proj : Project} {rank : List Nat} (wf : WFacts proj
                   have hroot : modIdx proj [r] = some m := by rw [← hpm]; exact modIdx_of_path wf.modNodup hlt
                   rcases hden r rest m rfl hroot with ⟨h0, _⟩ | ⟨_, hjr⟩
                   · exact absurd h0 hrest
-                  · have hden2 := expand_sound wf hI hn (finalEnv s) rfl hmro rest ro true (m, []) oo v p2 hoo
+                  · have hden2 := expand_sound wf hI hn (finalEnv s) rfl rest ro true (m, []) oo v p2 hoo
                       (by rw [hpro]; simp [sitePath, hpm]) hkr hjr hx2
                     exact registered_ident wf hI hden2 hof2
       | external => simp [hfo] at hr
